@@ -558,7 +558,7 @@ def run_check(pid, tier, seed):
         if os.path.exists(statsf):
             stats = json.load(open(statsf))
         if hang is not None:
-            path = write_replay(pid, {"property": pid, "kind": "case", "case": hang, "impl_obs": "HANG (>10 s)",
+            path = write_replay(pid, {"property": pid, "kind": "case", "case": hang, "impl_obs": "HANG (>40 s)",
                                       "model_obs": "terminates", "what": "implementation did not return"})
             violations.append((path, ""))
             return None
